@@ -59,6 +59,18 @@ CHECKS = {
         "Trusted: numpy tensordot; areas are judged by C05; dyadic-rational data make float64 sums exact.",
         "DESIGN.md section 6, C06",
     ),
+    "C13": (
+        "property-based testing (Hypothesis): independent enclosure/tightness oracle (sampling + analytic apex + shortest longitude cover) over constructed convex faces",
+        "Exploration: strictly convex faces with 3-8 corners built by construction anywhere on the sphere (four size classes up to 88 degrees "
+        "across; planted: centre at / near a pole, on the antimeridian, prime meridian, equator; wide faces whose lowest corner starts a "
+        "poleward-bulging edge; a corner exactly at a pole with an arbitrary stored longitude; every traversal start), alone or as the faces "
+        "of generated hull / lat-lon meshes with padding. Every corner, 64 samples and the analytic apex of every edge must lie in the "
+        "reported box (2e-8 rad), latitude bounds must be attained (1e-7), the longitude interval must be the shortest cover of the corner "
+        "longitudes or the full circle exactly when a pole is strictly inside.",
+        "Trusted: vlib/sphere.py (slerp sampling, apex formula, orientation test); longitude is monotone along a great-circle arc that "
+        "misses the poles, so the corner longitudes determine the shortest cover; faces with a pole within 1e-6 of an edge give no verdict.",
+        "DESIGN.md section 6, C13",
+    ),
     "C14": (
         "property-based testing (Hypothesis) against an exact rational-arithmetic oracle, margin-controlled generation, metamorphic relations",
         "Exploration: cases carry the actual float vectors; the exact relation (point on the arc's great circle and between its "
